@@ -145,6 +145,25 @@ Section Alg.
   Lemma affine_tlist l : affine (tlist_spec N l).
   Proof. induction l; cbn [tlist_spec]; [apply affine_I|apply affine_mmul; auto using affine_spec]. Qed.
 
+  (* SaxDocument.generate_dom writes an affine matrix so that reading the
+     attribute back (SVG 1.1 §7.6 matrix(a b c d e f)) gives the same matrix *)
+  Lemma sax_dom_matrix_roundtrip (M : @mat K) c s t :
+    affine M -> impl_item N (mkRaw NMatrix (sax_dom_matrix M) c s t) = M.
+  Proof.
+    destruct M as [a1 a2 a3 a4 a5 a6 a7 a8 a9]. unfold affine; cbn [m31 m32 m33].
+    intros (-> & -> & ->). reflexivity.
+  Qed.
+  Lemma sax_dom_matrix_spec (M : @mat K) :
+    affine M ->
+    match sax_dom_matrix M with
+    | [a; b; c; d; e; f] => titem_spec N (TMatrix a b c d e f) = M
+    | _ => False
+    end.
+  Proof.
+    destruct M as [a1 a2 a3 a4 a5 a6 a7 a8 a9]. unfold affine; cbn [m31 m32 m33].
+    intros (-> & -> & ->). reflexivity.
+  Qed.
+
   (* what each item does to a point (SVG 1.1 §7.6 in coordinates) *)
   Lemma translate_point x y p :
     pt_apply N (titem_spec N (TTranslate x (Some y))) p = (add N (fst p) x, add N (snd p) y).
